@@ -246,7 +246,30 @@ func c12GenConfig(r *lib.Rng, n int, o c12GenOpts) *c12Config {
 		}
 		nd := c12Class{supers: cf.defs[cf.rcls].supers, slots: c12GenSlots(r, cf.rcls, 1, o, used)}
 		if r.Chance(50) {
-			nd.supers = c12GenSupers(r, cf.rcls)
+			// new direct superclasses: any classes that do not inherit from the redefined class
+			// (the graph stays acyclic); they may be defined before or after the redefinition
+			var cand []int
+			for k := 0; k < n; k++ {
+				if k != cf.rcls && !c12Ancestors(cf.defs, k)[cf.rcls] {
+					cand = append(cand, k)
+				}
+			}
+			for try := 0; try < 4; try++ {
+				var sup []int
+				for _, k := range cand {
+					if r.Chance(45) && len(sup) < 3 {
+						sup = append(sup, k)
+					}
+				}
+				for i := len(sup) - 1; i > 0; i-- {
+					j := r.Intn(i + 1)
+					sup[i], sup[j] = sup[j], sup[i]
+				}
+				nd.supers = sup
+				if c12Ints(sup, ",") != c12Ints(cf.defs[cf.rcls].supers, ",") {
+					break
+				}
+			}
 		}
 		cf.redef = &nd
 	}
@@ -306,7 +329,8 @@ func c12ArgToken(c int, ks []int) string {
 }
 
 // final observation block for the definitions defs (generator's view of what is worth asking)
-func c12FinalBlock(r *lib.Rng, defs []c12Class) []string {
+func c12FinalBlock(r *lib.Rng, cf *c12Config) []string {
+	defs := cf.finalDefs()
 	n := len(defs)
 	var toks []string
 	// who defines readers / writers / accessors for which slot
@@ -319,6 +343,15 @@ func c12FinalBlock(r *lib.Rng, defs []c12Class) []string {
 		for _, sl := range d.slots {
 			for _, f := range sl.flags {
 				accs = append(accs, acc{c, sl.name, string(f)})
+			}
+		}
+	}
+	// the accessors of a superseded definition stay defined as methods on the class name
+	var stale []acc
+	if cf.redef != nil {
+		for _, sl := range cf.defs[cf.rcls].slots {
+			for _, f := range sl.flags {
+				stale = append(stale, acc{cf.rcls, sl.name, string(f)})
 			}
 		}
 	}
@@ -389,6 +422,32 @@ func c12FinalBlock(r *lib.Rng, defs []c12Class) []string {
 			}
 			sort.Ints(sl)
 			wv := 5000
+			// a slot the instance does not have: slot-makunbound / setf slot-value must not create it,
+			// nor may a writer left over from a superseded definition
+			if r.Chance(40) {
+				for x := 0; x < 5; x++ {
+					if !slots[x] {
+						if r.Bool() {
+							toks = append(toks, fmt.Sprintf("U:%d", x))
+						} else {
+							toks = append(toks, fmt.Sprintf("W:%d:%d:s:0", x, 4999))
+						}
+						break
+					}
+				}
+			}
+			for _, a := range stale {
+				if r.Chance(50) {
+					switch a.how {
+					case "r":
+						toks = append(toks, fmt.Sprintf("R:%d:r:%d", a.slot, a.cls))
+					case "w":
+						toks = append(toks, fmt.Sprintf("W:%d:%d:w:%d", a.slot, 4998, a.cls))
+					default:
+						toks = append(toks, fmt.Sprintf("W:%d:%d:a:%d", a.slot, 4997, a.cls))
+					}
+				}
+			}
 			for _, x := range sl {
 				// candidates defined by any class (applicable or not)
 				var cand []acc
@@ -418,6 +477,9 @@ func c12FinalBlock(r *lib.Rng, defs []c12Class) []string {
 					}
 				}
 				wv++
+			}
+			if len(sl) > 0 {
+				toks = append(toks, fmt.Sprintf("W:%d:%d:s:0", sl[0], 5999))
 			}
 		}
 		// an initarg no slot of the class declares
@@ -612,7 +674,7 @@ func c12SweepPrograms() []*c12Prog {
 				{s1, []c12Slot{{name: 1, initargs: []int{1}, hasForm: true, form: 12, flags: "a"}, {name: 3, hasForm: true, form: 14}}},
 				{s2, []c12Slot{{name: 2, hasForm: true, form: 23, flags: "w"}, {name: 3}}},
 			}}
-			final := c12FinalBlock(fr, cf.defs)
+			final := c12FinalBlock(fr, cf)
 			for pi, order := range c12Perms(3) {
 				p := c12Build(fr, cf, order, -1, final, 1)
 				p.key = fmt.Sprintf("g%d%d%d", a, b, pi)
@@ -1335,7 +1397,7 @@ func runC12(c *lib.Ctx) {
 			o := opts
 			o.redef = !avoidRedef && c.Rng.Chance(50)
 			cf := c12GenConfig(c.Rng, fm.n, o)
-			final := c12FinalBlock(c.Rng, cf.finalDefs())
+			final := c12FinalBlock(c.Rng, cf)
 			for pi, order := range c12Perms(fm.n) {
 				rpos := c12RedefPos(c.Rng, cf, order)
 				p := c12Build(c.Rng, cf, order, rpos, final, c.Scale(4, 6))
@@ -1355,7 +1417,7 @@ func runC12(c *lib.Ctx) {
 		perms := c12Perms(cf.n)
 		order := perms[c.Rng.Intn(len(perms))]
 		rpos := c12RedefPos(c.Rng, cf, order)
-		p := c12Build(c.Rng, cf, order, rpos, c12FinalBlock(c.Rng, cf.finalDefs()), c.Scale(4, 6))
+		p := c12Build(c.Rng, cf, order, rpos, c12FinalBlock(c.Rng, cf), c.Scale(4, 6))
 		p.key = fmt.Sprintf("s%d", k)
 		progs = append(progs, p)
 	}
